@@ -12,7 +12,13 @@
                               degree / radian operator or a superscript exponent is directly followed by a token that
                               would start an implicit right factor (an opening bracket, a function name, a literal), or if
                               the placeholder or a constant directly follows a token that ends an operand (a literal, a
-                              closing bracket, @, a constant, ° / rad, a superscript, !), the input is rejected (Err) *)
+                              closing bracket, @, a constant, ° / rad, a superscript, !), the input is rejected (Err)
+      C12_literal_literal_rejected
+                              a number literal directly followed by a number literal is NOT a product (the property lists
+                              the implicit products; `.5.5`, `1.5.5`, `1..5`, `2ii` are not among them): every token
+                              sequence of eval_f64 / eval_decimal / eval_complex / eval_number in which a literal token
+                              is directly followed by a literal token is rejected (after the repair; eval_i64's lexer
+                              cannot produce two adjacent literal tokens) *)
 From Coq Require Import List NArith ZArith Bool.
 From SC Require Import Base.Res Base.F64 Base.Dec Base.Num Base.Oracle Lang.Syntax Lang.Parser Gen.Tables
   Eval.Run Spec.Surface Proofs.Grammar Proofs.Subst Proofs.Juxt Proofs.Adjacent.
@@ -25,7 +31,8 @@ Theorem C12_f64_juxt_is_product :
 Proof. intros ph a r p H. exact (juxt_is_product pt_f64 ph eq_refl a r p H). Qed.
 Print Assumptions C12_f64_juxt_is_product.
 Theorem C12_f64_shape :
-  (forall (a r : @sx f64) p, W pt_f64 p (SJuxt a r) -> capable a = true /\ pt_trigger pt_f64 (hdk (print pt_f64 r)) = true) /\
+  (forall (a r : @sx f64) p, W pt_f64 p (SJuxt a r) -> capable a = true /\ pt_trigger pt_f64 (hdk (print pt_f64 r)) = true /\
+                                                       numjuxt_ok pt_f64 a (hdk (print pt_f64 r)) = true) /\
   forallb (fun k => negb (pt_trigger pt_f64 k)) [KAns; KPi; KE; KSuperscript; KDegToRad; KRadToDeg; KEof; KRightParen; KComma] = true /\
   @capable f64 SAns = false /\ @capable f64 (SConst KPi) = false.
 Proof. split; [intros a r p H; exact (juxt_shape pt_f64 a r p H)|]. repeat split; vm_compute; reflexivity. Qed.
@@ -52,7 +59,8 @@ Theorem C12_i64_juxt_is_product :
 Proof. intros ph a r p H. exact (juxt_is_product pt_i64 ph eq_refl a r p H). Qed.
 Print Assumptions C12_i64_juxt_is_product.
 Theorem C12_i64_shape :
-  (forall (a r : @sx Z) p, W pt_i64 p (SJuxt a r) -> capable a = true /\ pt_trigger pt_i64 (hdk (print pt_i64 r)) = true) /\
+  (forall (a r : @sx Z) p, W pt_i64 p (SJuxt a r) -> capable a = true /\ pt_trigger pt_i64 (hdk (print pt_i64 r)) = true /\
+      numjuxt_ok pt_i64 a (hdk (print pt_i64 r)) = true) /\
   forallb (fun k => negb (pt_trigger pt_i64 k)) [KAns; KPi; KE; KSuperscript; KDegToRad; KRadToDeg; KEof; KRightParen; KComma] = true /\
   @capable Z SAns = false /\ @capable Z (SConst KPi) = false.
 Proof. split; [intros a r p H; exact (juxt_shape pt_i64 a r p H)|]. repeat split; vm_compute; reflexivity. Qed.
@@ -79,7 +87,8 @@ Theorem C12_decimal_juxt_is_product :
 Proof. intros ph a r p H. exact (juxt_is_product pt_decimal ph eq_refl a r p H). Qed.
 Print Assumptions C12_decimal_juxt_is_product.
 Theorem C12_decimal_shape :
-  (forall (a r : @sx dec) p, W pt_decimal p (SJuxt a r) -> capable a = true /\ pt_trigger pt_decimal (hdk (print pt_decimal r)) = true) /\
+  (forall (a r : @sx dec) p, W pt_decimal p (SJuxt a r) -> capable a = true /\ pt_trigger pt_decimal (hdk (print pt_decimal r)) = true /\
+      numjuxt_ok pt_decimal a (hdk (print pt_decimal r)) = true) /\
   forallb (fun k => negb (pt_trigger pt_decimal k)) [KAns; KPi; KE; KSuperscript; KDegToRad; KRadToDeg; KEof; KRightParen; KComma] = true /\
   @capable dec SAns = false /\ @capable dec (SConst KPi) = false.
 Proof. split; [intros a r p H; exact (juxt_shape pt_decimal a r p H)|]. repeat split; vm_compute; reflexivity. Qed.
@@ -106,7 +115,8 @@ Theorem C12_complex_juxt_is_product :
 Proof. intros ph a r p H. exact (juxt_is_product pt_complex ph eq_refl a r p H). Qed.
 Print Assumptions C12_complex_juxt_is_product.
 Theorem C12_complex_shape :
-  (forall (a r : @sx cpx) p, W pt_complex p (SJuxt a r) -> capable a = true /\ pt_trigger pt_complex (hdk (print pt_complex r)) = true) /\
+  (forall (a r : @sx cpx) p, W pt_complex p (SJuxt a r) -> capable a = true /\ pt_trigger pt_complex (hdk (print pt_complex r)) = true /\
+      numjuxt_ok pt_complex a (hdk (print pt_complex r)) = true) /\
   forallb (fun k => negb (pt_trigger pt_complex k)) [KAns; KPi; KE; KSuperscript; KDegToRad; KRadToDeg; KEof; KRightParen; KComma] = true /\
   @capable cpx SAns = false /\ @capable cpx (SConst KPi) = false.
 Proof. split; [intros a r p H; exact (juxt_shape pt_complex a r p H)|]. repeat split; vm_compute; reflexivity. Qed.
@@ -133,7 +143,8 @@ Theorem C12_number_juxt_is_product :
 Proof. intros ph a r p H. exact (juxt_is_product pt_number ph eq_refl a r p H). Qed.
 Print Assumptions C12_number_juxt_is_product.
 Theorem C12_number_shape :
-  (forall (a r : @sx number) p, W pt_number p (SJuxt a r) -> capable a = true /\ pt_trigger pt_number (hdk (print pt_number r)) = true) /\
+  (forall (a r : @sx number) p, W pt_number p (SJuxt a r) -> capable a = true /\ pt_trigger pt_number (hdk (print pt_number r)) = true /\
+      numjuxt_ok pt_number a (hdk (print pt_number r)) = true) /\
   forallb (fun k => negb (pt_trigger pt_number k)) [KAns; KPi; KE; KSuperscript; KDegToRad; KRadToDeg; KEof; KRightParen; KComma] = true /\
   @capable number SAns = false /\ @capable number (SConst KPi) = false.
 Proof. split; [intros a r p H; exact (juxt_shape pt_number a r p H)|]. repeat split; vm_compute; reflexivity. Qed.
@@ -189,6 +200,21 @@ Proof.
           | eapply ender_then_atom_rejected; eauto; vm_compute; reflexivity ].
 Qed.
 Print Assumptions C12_forbidden_juxtapositions_rejected.
+
+Theorem C12_literal_literal_rejected :
+  (forall (ph : f64) ts a b, adj (TNum a) (TNum b) ts -> parse pt_f64 ph ts = Err) /\
+  (forall (ph : dec) ts a b, adj (TNum a) (TNum b) ts -> parse pt_decimal ph ts = Err) /\
+  (forall (ph : f64 * f64) ts a b, adj (TNum a) (TNum b) ts -> parse pt_complex ph ts = Err) /\
+  (forall (ph : number) ts a b, adj (TNum a) (TNum b) ts -> parse pt_number ph ts = Err).
+Proof. repeat split; intros ph ts a b A; eapply num_then_num_rejected; eauto. Qed.
+Print Assumptions C12_literal_literal_rejected.
+
+(** the witnesses that used to be accepted as products: `.5 .5`, `1.5 .5` as token sequences *)
+Example C12_literal_literal_examples :
+  forall (ph a b : f64), parse pt_f64 ph [TNum a; TNum b] = Err /\ parse pt_f64 ph [TK KLeftParen; TNum a; TNum b; TK KRightParen] = Err /\
+                         parse pt_f64 ph [TNum a; TK KLeftParen; TNum b; TK KRightParen] = Ok (NBin BMultiply (NNum a) (NNum b)) /\
+                         parse pt_f64 ph [TK KLeftParen; TNum a; TK KRightParen; TNum b] = Ok (NBin BMultiply (NNum a) (NNum b)).
+Proof. intros. repeat split; vm_compute; reflexivity. Qed.
 
 (** what the four token classes are, on the regenerated tables (eval_f64 shown; the other tables pass the same side conditions) *)
 Example C12_token_classes :
